@@ -386,10 +386,85 @@ def run(ctx, report):
     from .c03 import ptrformula_rule
     ptrformula_rule(ctx, R12, X)
 
+    # ---------------------------------------------------------------- D13 the segment override of a memory operand is rendered, whichever segment it is
+    R13 = report.rule('C09.D13', 'dict_to_ad, evaluated on memory operands with every segment override (es is number 0) x address shape x both syntaxes, renders the override and the '
+                      'registers of the address (shared as C01.D12)', floor=40)
+    segment_render_rule(ctx, R13)
+
     # ---------------------------------------------------------------- D11 both renderings come from one object
     R11 = report.rule('C09.D11', 'rendering does not change the instruction: the Intel and the AT&T rendering of one decoded object describe the same instruction (shared with C12.D11)', floor=4)
     from .c12 import readonly_methods_rule
     readonly_methods_rule(ctx, R11)
+
+
+def segment_render_rule(ctx, R):
+    from ..x86table import model as x86model
+    from ..consteval import Evaluator, Obj, Native, NotConst, PyRaise
+    X = x86model(ctx)
+    arch, afs, E = X.arch, X.afs, X.env
+    d2a = arch.func('dict_to_ad')
+    lg = Obj('log')
+    for k_ in ('debug', 'error', 'info', 'warning'):
+        setattr(lg, k_, Native(lambda *a: None))
+    scope = dict((k, v) for k, v in E.items() if isinstance(v, (str, int, bool, list, tuple, dict)) or v is None)
+    scope.update({'x86_afs': afs, 'log': lg})
+    for fname_, fnode_ in arch.funcs.items():
+        scope.setdefault(fname_, fnode_)
+    segs = list(afs.reg_sg)
+    regs32 = list(afs.reg_list32)
+    shapes = [('[eax]', {0: 1}), ('[ebx+esi*4]', {3: 1, 6: 4}), ('[ebp+8]', {5: 1, afs.imm: 8}), ('[disp]', {afs.imm: 0x1234}), ('[edi]', {7: 1})]
+    for fmt in ('intel_syntax noprefix', 'att_syntax'):
+        for si, sname in enumerate(segs[:6]):
+            for label, shape in shapes:
+                d = dict(shape)
+                d.update({afs.ad: afs.u32, afs.size: afs.u32, afs.segm: si})
+                inst = 'segment-render:%s:%s:%s' % (fmt.split('_')[0], sname, label)
+                try:
+                    out = Evaluator(scope).call_user(d2a, [d, None, afs.u32, afs.u32, fmt])
+                except PyRaise as e:
+                    R.violation(inst, 'segment-render:%s:raises:%s' % (sname, e.exc_name), 'dict_to_ad raises %s on %s %s:%s' % (e.exc_name, fmt, sname, label), where(arch, d2a))
+                    continue
+                except NotConst as e:
+                    raise AnalysisError('dict_to_ad is outside the evaluable subset on %s:%s (%s): %s' % (sname, label, fmt, e))
+                txt = out if isinstance(out, str) else repr(out)
+                want_regs = [regs32[k_] for k_ in shape if isinstance(k_, int)]
+                if (sname + ':') not in txt:
+                    R.violation(inst, 'segment-render:%s:dropped' % sname, 'the memory operand %s:%s is rendered `%s` (%s): the %s override is not shown, and the rendering assembles '
+                                'without its prefix' % (sname, label, txt, fmt, sname), where(arch, d2a), witness='26 8b 00 (mov eax, es:[eax])')
+                elif not all(r_ in txt for r_ in want_regs):
+                    R.violation(inst, 'segment-render:%s:registers' % label, 'the memory operand %s:%s is rendered `%s` (%s): an address register is missing' % (sname, label, txt, fmt), where(arch, d2a))
+                else:
+                    R.ok(inst, sample='%s:%s -> %s' % (sname, label, txt), nontrivial=(si in (0, 3) or label == '[eax]'))
+
+
+def liberal_swap_rule(ctx, R):
+    """`xchgl (%ebx), %eax` / `testb 4(%ebx), %dl`: the AT&T line with the memory operand written first denotes the same instruction as `xchgl %eax, (%ebx)`; the rows take the
+    memory operand first, so mnemo_from_att must hand the caller's list back with the memory operand first (the caller keeps using that list)."""
+    from ..archinterp import arch_interp
+    from ..lifter import LiftUnknown, LiftError
+    X, I = arch_interp(ctx)
+    arch, afs = X.arch, X.afs
+    from_att = I.g.get('mnemo_from_att')
+    if from_att is None:
+        raise AnalysisError('ia32_arch.mnemo_from_att not found')
+    for att_name, size in (('xchgl', afs.u32), ('xchgw', afs.u16), ('xchgb', afs.u08), ('testl', afs.u32), ('testb', afs.u08)):
+        for order in ('reg, mem', 'mem, reg'):
+            reg = {afs.ad: False, afs.size: size, 0: 1, 'txt': 'eax'}
+            mem = {afs.ad: True, afs.size: True, 3: 1, 'txt': 'ebx'}
+            lst = [reg, mem] if order == 'reg, mem' else [mem, reg]
+            try:
+                r_ = I.run(from_att, [[], att_name, lst, 'att_syntax'])
+            except LiftUnknown as e:
+                raise AnalysisError('mnemo_from_att outside the modelled subset on %s: %s' % (att_name, e))
+            inst = 'liberal-swap:%s:%s' % (att_name, order)
+            if any(isinstance(res_, LiftError) for _, res_ in r_):
+                R.violation(inst, 'liberal-swap:%s:rejected' % att_name, 'mnemo_from_att rejects %s with operands (%s)' % (att_name, order), where(arch, from_att.node))
+            elif len(lst) == 2 and lst[0].get(afs.ad) not in (False, None):
+                R.ok(inst, sample='%s (%s): the list handed back has the memory operand first' % (att_name, order))
+            else:
+                R.violation(inst, 'liberal-swap:%s' % att_name[:4], '%s with the operands (%s) as the AT&T parser delivers them: the operand list the caller goes on with still has the register '
+                            'first, and no row of %s takes a memory operand in second place -- the line gets no candidate while its Intel transliteration does' % (att_name, order, att_name[:4]),
+                            where(arch, from_att.node), witness="asm_att('xchgl (%ebx), %eax') == []")
 
 
 def far_order_rule(ctx, R8):
